@@ -4,10 +4,10 @@ package main
 //
 // Enumerated (fault sequences on a real temporary directory, removed after each scenario):
 // each of 4 (thorough 5) names - "10", "9", "B", "a", "é": creation order, byte order and
-// natural order all differ - is absent or one of 11 entry kinds {good1, good2, good3, empty
+// natural order all differ - is absent or one of 13 entry kinds {good1, good2, good3, empty
 // file, good file cut inside the header / inside an entity / before its last byte, corrupt
 // file, sub-directory, file that vanishes after listing, file replaced by a directory after
-// listing}, in EVERY assignment (12^4 / 12^5, all-bad and empty directories included), x 2
+// listing, symbolic link to a good file, dangling symbolic link}, in EVERY assignment (14^4 / 14^5, all-bad and empty directories included), x 2
 // creation orders.
 // Oracle: the sequence returned by Next equals the independent parses (same extension
 // options) of the entries that are readable and parse - decided by parsing those very bytes,
@@ -29,7 +29,7 @@ import (
 )
 
 var c19Names = []string{"10", "9", "B", "a", "é"}
-var c19Kinds = []string{"absent", "good1", "good2", "good3", "empty", "cut-in-header", "cut-in-entity", "cut-last-byte", "corrupt", "sub-directory", "vanishes", "replaced-by-directory"}
+var c19Kinds = []string{"absent", "good1", "good2", "good3", "empty", "cut-in-header", "cut-in-entity", "cut-last-byte", "corrupt", "sub-directory", "vanishes", "replaced-by-directory", "symlink-to-good-file", "dangling-symlink"}
 
 var c19GoodCache [][]byte
 
@@ -91,12 +91,16 @@ func c19Content(kind int) []byte {
 	return nil
 }
 
-func c19Harness(nNames int) Harness {
+func c19Harness(nNames int, allKinds bool) Harness {
 	return func(c *Ctx) {
 		kinds := make([]int, nNames)
 		var desc []string
 		for i := 0; i < nNames; i++ {
-			kinds[i] = c.Free("entry["+c19Names[i]+"]", len(c19Kinds))
+			if allKinds {
+				kinds[i] = c.Free("entry["+c19Names[i]+"]", len(c19Kinds))
+			} else {
+				kinds[i] = c19QuickKinds[c.Free("entry["+c19Names[i]+"]", len(c19QuickKinds))]
+			}
 			if kinds[i] != 0 {
 				desc = append(desc, c19Names[i]+"="+c19Kinds[kinds[i]])
 			}
@@ -104,11 +108,16 @@ func c19Harness(nNames int) Harness {
 		reverseCreation := c.Free("creation_order_reversed", 2) == 1
 		d := strings.Join(desc, " ")
 		c.Input(hash64(d+fmt.Sprint(reverseCreation)), len(desc) >= 2, func() string { return fmt.Sprintf("directory {%s} created in reverse order: %v", d, reverseCreation) })
-		dir, err := os.MkdirTemp("", "verifc19")
+		dir, err := os.MkdirTemp(scratchBase(), "verifc19")
 		if err != nil {
 			harnessBug("mkdtemp: %v", err)
 		}
 		defer os.RemoveAll(dir)
+		linkTargets, err := os.MkdirTemp(scratchBase(), "verifc19t")
+		if err != nil {
+			harnessBug("mkdtemp: %v", err)
+		}
+		defer os.RemoveAll(linkTargets)
 		order := make([]int, nNames)
 		for i := range order {
 			order[i] = i
@@ -126,6 +135,22 @@ func c19Harness(nNames int) Harness {
 					harnessBug("mkdir: %v", err)
 				}
 				os.WriteFile(filepath.Join(p, "inner"), c19Good()[0], 0644)
+				continue
+			}
+			switch c19Kinds[kinds[i]] {
+			case "symlink-to-good-file":
+				target := filepath.Join(linkTargets, "target-"+c19Names[i])
+				if err := os.WriteFile(target, c19Good()[1], 0644); err != nil {
+					harnessBug("write: %v", err)
+				}
+				if err := os.Symlink(target, p); err != nil {
+					harnessBug("symlink: %v", err)
+				}
+				continue
+			case "dangling-symlink":
+				if err := os.Symlink(filepath.Join(linkTargets, "no-such-file"), p); err != nil {
+					harnessBug("symlink: %v", err)
+				}
 				continue
 			}
 			if err := os.WriteFile(p, c19Content(kinds[i]), 0644); err != nil {
@@ -243,6 +268,20 @@ func c19Harness(nNames int) Harness {
 	}
 }
 
+// scratchBase prefers a memory-backed directory for the tens of thousands of scratch directories.
+func scratchBase() string {
+	if st, err := os.Stat("/dev/shm"); err == nil && st.IsDir() {
+		if f, err := os.CreateTemp("/dev/shm", "verifprobe"); err == nil {
+			f.Close()
+			os.Remove(f.Name())
+			return "/dev/shm"
+		}
+	}
+	return ""
+}
+
+var c19QuickKinds = []int{0, 1, 2, 4, 6, 8, 9, 10, 11, 12, 13}
+
 func sortedJoin(l []string) string {
 	s := append([]string{}, l...)
 	sort.Strings(s)
@@ -253,15 +292,14 @@ func init() {
 	register(&Check{
 		ID:    "C19",
 		Level: "fault_enumeration",
-		Rule: "every assignment of {absent, good1, good2, good3, empty, cut-in-header, cut-in-entity, cut-last-byte, corrupt, sub-directory, vanishes after listing, replaced by a directory after listing} to the names 10, 9, B, a (thorough: and é) - 12^4 = 20 736 (12^5 = 248 832) directories - x 2 creation orders, on a real temporary directory; " +
+		Rule: "every assignment of {absent, good1, good2, good3, empty, cut-in-header, cut-in-entity, cut-last-byte, corrupt, sub-directory, vanishes after listing, replaced by a directory after listing, symlink to a good file, dangling symlink} to the names 10, 9, B, a, é (thorough: 14^5 = 537 824 directories; quick: the first 4 names, 14^4 = 38 416) - x 2 creation orders, on a real temporary directory; " +
 			"non-trivial = distinct directories with >= 2 entries; oracle = independent parses of the readable, parseable entries in byte order of their names, nil afterwards, and equality of the journals",
 		Assumptions: []string{"unreadable means: is a directory or no longer exists (the checks run as root, so permission faults cannot be produced)", "whether a damaged file still parses is decided by parsing its bytes independently"},
 		Scenarios: func(tier string) []*Scenario {
-			n := 4
 			if tier == "thorough" {
-				n = 5
+				return []*Scenario{{Name: "directories-5-names-14-kinds", Bound: -1, Run: c19Harness(5, true)}}
 			}
-			return []*Scenario{{Name: fmt.Sprintf("directories-%d-names", n), Bound: -1, Run: c19Harness(n)}}
+			return []*Scenario{{Name: "directories-4-names-14-kinds", Bound: -1, Run: c19Harness(4, true)}}
 		},
 	})
 }
